@@ -48,6 +48,13 @@ theorem putBoth_inv (x : Option Nat) (s1 : State) (k h : Nat) (hv : h < s1.heap.
     · obtain ⟨hm', hne⟩ := mem_erase hm
       obtain ⟨rec, hl, he⟩ := hi1.coh id' h' hm' (hxk id' hne hx)
       exact ⟨rec, by rw [lookup_insert_ne _ _ hne]; exact hl, he⟩
+  · intro id' h1 h2 hm1 hm2
+    simp only [putBoth, insert, List.mem_cons, Prod.mk.injEq] at hm1 hm2
+    rcases hm1 with ⟨rfl, rfl⟩ | hm1 <;> rcases hm2 with ⟨hk2, rfl⟩ | hm2
+    · rfl
+    · exact absurd rfl (mem_erase hm2).2
+    · exact absurd hk2 (mem_erase hm1).2
+    · exact hi1.uniq id' h1 h2 (mem_erase hm1).1 (mem_erase hm2).1
 
 theorem touchNow_inv (x : Option Nat) (s : State) (h : Nat) (hi : InvX x s) : InvX x (touchNow s h) :=
   inv_touch x s h _ rfl rfl hi
@@ -86,11 +93,12 @@ theorem inv_setObj_except (s : State) (h k : Nat) (o' : Sess) (hi : InvX none s)
     have hne : h' ≠ h := by
       intro hh; subst hh; exact hx (by rw [honly id' hm])
     rw [obj_setObj_ne s h h' o' hne]; exact hi.coh id' h' hm (by simp)
+  · intro id' h1 h2 hm1 hm2; exact hi.uniq id' h1 h2 hm1 hm2
 
 theorem inv_nextId (x : Option Nat) (s : State) (n : Nat) (hi : InvX x s) : InvX x { s with nextId := n } :=
-  ⟨hi.valid, hi.wf, hi.coh⟩
+  ⟨hi.valid, hi.wf, hi.coh, hi.uniq⟩
 theorem inv_timers (x : Option Nat) (s : State) (t : List (Int × Nat)) (hi : InvX x s) : InvX x { s with timers := t } :=
-  ⟨hi.valid, hi.wf, hi.coh⟩
+  ⟨hi.valid, hi.wf, hi.coh, hi.uniq⟩
 
 theorem inv_alloc (x : Option Nat) (s : State) (o : Sess) (hi : InvX x s) : InvX x (s.alloc o).2 := by
   constructor
@@ -101,6 +109,7 @@ theorem inv_alloc (x : Option Nat) (s : State) (o : Sess) (hi : InvX x s) : InvX
     rw [obj_alloc_old s o h' (hi.valid id' h' hm)]; exact hi.wf id' h' hm hx
   · intro id' h' hm hx
     rw [obj_alloc_old s o h' (hi.valid id' h' hm)]; exact hi.coh id' h' hm hx
+  · intro id' h1 h2 hm1 hm2; exact hi.uniq id' h1 h2 hm1 hm2
 
 /-- state component of RegenerateID as a composition of named steps (cache enabled). -/
 def regenS0 (s : State) (h : Nat) : State :=
